@@ -1,6 +1,6 @@
 #!/bin/bash
 set -e
-cd /verif/sim
+cd "$(dirname "$(readlink -f "$0")")"
 mkdir -p bin
 cargo build -q -p simgen --target-dir target/simgen 2>&1
 cp target/simgen/debug/simgen bin/simgen
